@@ -28,6 +28,7 @@ def step (n : Node) (line : String) : Node × String :=
   -- `pubd` = `pub` with DUP=1 on the client's PUBLISH: the flag says the CLIENT sent the packet before, routing is the same
   let ws := match words line with
     | "pubd" :: rest => "pub" :: rest
+    | "wpub" :: rest => "pub" :: rest     -- a will message takes the same routing decision (OnWillPublishWrapper → sendMessage)
     | l => l
   match ws with
   | ["new", self] => ({ recv := Recv.new self, locals := [], sent := [], queues := [] }, "ok")
